@@ -299,5 +299,107 @@ impl<E> Drop for CQueue<E> {
     }
 }
 
+#[cfg(petrichorit_des_verif)]
+pub use alloc::verif as verif_alloc;
+
+/// Verification hook: the internal state of a [`CQueue`] as plain data.
+#[cfg(petrichorit_des_verif)]
+#[derive(Debug, Clone, PartialEq, Eq)]
+pub struct VerifSnapshot {
+    pub head: usize,
+    pub t0: Duration,
+    pub t1: Duration,
+    pub t_current: Duration,
+    pub len: usize,
+    /// (id, time) of the zero-event bucket in queue order.
+    pub zero: Vec<(usize, Duration)>,
+    /// (id, time) per bucket in list order.
+    pub buckets: Vec<Vec<(usize, Duration)>>,
+}
+
+#[cfg(petrichorit_des_verif)]
+impl<E> CQueue<E> {
+    /// Verification hook: like [`CQueue::new`] with an explicit allocator page size.
+    #[must_use]
+    pub fn verif_with_page_size(n: usize, t: Duration, page_size: usize) -> Self {
+        let mut this = Self::new(n, t);
+        // drop the lists first: they own nodes inside the old allocator
+        for dll in this.buckets.drain(..) {
+            drop(dll);
+        }
+        let mut alloc = Box::new(CQueueLLAllocatorInner::with_page_size(page_size));
+        this.buckets = std::iter::repeat_with(|| DualLinkedList::new(alloc.handle()))
+            .take(n)
+            .collect();
+        this.alloc = alloc;
+        this
+    }
+
+    /// Verification hook: snapshot of buckets, window and counters.
+    ///
+    /// # Errors
+    ///
+    /// Returns a description of the first structural defect of a bucket list.
+    pub fn verif_snapshot(&self) -> Result<VerifSnapshot, String> {
+        let mut buckets = Vec::with_capacity(self.n);
+        for (i, b) in self.buckets.iter().enumerate() {
+            buckets.push(b.verif_nodes().map_err(|e| format!("bucket {i}: {e}"))?);
+        }
+        Ok(VerifSnapshot {
+            head: self.head,
+            t0: self.t0,
+            t1: self.t1,
+            t_current: self.t_current,
+            len: self.len,
+            zero: self
+                .zero_event_bucket
+                .iter()
+                .map(|(_, t, id)| (*id, *t))
+                .collect(),
+            buckets,
+        })
+    }
+
+    /// Verification hook: checks the structural invariants of the calendar queue
+    /// (sorted buckets, bucket-index membership, nothing older than the current time, `len`).
+    ///
+    /// # Errors
+    ///
+    /// Returns a description of the first violated invariant.
+    pub fn verif_check_invariants(&self) -> Result<(), String> {
+        let snap = self.verif_snapshot()?;
+        let mut total = snap.zero.len();
+        for (_, t) in &snap.zero {
+            if *t != self.t_current {
+                return Err(format!("zero bucket holds time {t:?} != t_current {:?}", self.t_current));
+            }
+        }
+        for (i, b) in snap.buckets.iter().enumerate() {
+            total += b.len();
+            for w in b.windows(2) {
+                if w[0].1 > w[1].1 {
+                    return Err(format!("bucket {i} not sorted"));
+                }
+            }
+            for (id, t) in b {
+                let idx = (t.as_nanos().rem(self.t_all) / self.t_nanos) as usize % self.n;
+                if idx != i {
+                    return Err(format!("event {id} at {t:?} sits in bucket {i}, belongs to {idx}"));
+                }
+                if *t < self.t_current {
+                    return Err(format!("event {id} at {t:?} is older than t_current {:?}", self.t_current));
+                }
+            }
+        }
+        if total != self.len {
+            return Err(format!("len {} but {total} events stored", self.len));
+        }
+        if self.t1 != self.t0 + self.t || self.t0 > self.t_current {
+            return Err(format!("window [{:?},{:?}] inconsistent with t_current {:?}", self.t0, self.t1, self.t_current));
+        }
+        Ok(())
+    }
+}
+
 #[cfg(test)]
 mod tests;
